@@ -223,8 +223,7 @@ Attached(s, i) == ApiModel(s, i).t = "ok"
 \* ------------------------------------------------------------------ create_sub_element(_at)
 CreateSub(s, p, name, pos) ==
   LET mv == MinVersion(s, p) IN
-  IF "F9" \notin KF /\ ~Attached(s, p) THEN {Fail(s, "ItemDeleted")}
-  ELSE IF mv.t = "err" THEN {Fail(s, mv.v)}
+  IF mv.t = "err" THEN {Fail(s, mv.v)}
   ELSE LET r == CalcRange(s, p, name, mv.v) IN
   IF r.t = "err" THEN {Fail(s, r.v)}
   ELSE IF ~PosCheck(r, pos) THEN {Fail(s, "InvalidPosition")}
@@ -271,7 +270,7 @@ RemoveInternal(s, m, e, path) ==
       s1 == IF IsIdent(s, e) /\ nm # <<>> THEN RemoveIdx(s, m, p2) ELSE s
       s2 == IF KIsRef(Kind(s, e)) /\ HasRefData(s, e) THEN RemoveRefo(s1, m, CData(s, e).v, e) ELSE s1
       s3 == RemoveInternalList(s2, m, SubIds(s, e), p2)
-  IN [s3 EXCEPT !.n[e] = [@ EXCEPT !.cont = <<>>, !.par = PX]]
+  IN [s3 EXCEPT !.n[e] = [@ EXCEPT !.cont = <<>>, !.par = PX, !.fm = {}]]
 RemoveInternalList(s, m, ids, path) ==
   IF ids = <<>> THEN s ELSE RemoveInternalList(RemoveInternal(s, m, Head(ids), path), m, Tail(ids), path)
 
@@ -556,7 +555,7 @@ MoveLocal(s, m, p, src, pos0, v) ==
   IF sx.t = "err" THEN {Fail(s, sx.v)}
   ELSE IF dx.t = "err" THEN {Fail(s, dx.v)}
   ELSE LET s1 == SetF(s, sp.v, "cont", DelAt(Cont(s, sp.v), PosOfChild(s, sp.v, src)))
-           s2 == SetF(s1, src, "par", PE(p))
+           s2 == [s1 EXCEPT !.n[src] = [@ EXCEPT !.par = PE(p), !.fm = {}]]     \* the moved element inherits the files of its new parent
            mu == IF IsIdent(s2, src) THEN MakeUnique(s2, m, src, dx.v) ELSE [ok |-> TRUE, s |-> s2, name |-> ""] IN
   IF ~mu.ok THEN {Fail(s, "ElementNotIdentifiable")}    \* cannot happen: IsIdent and a string name
   ELSE LET dest == IF IsIdent(s2, src) THEN dx.v \o <<mu.name>> ELSE dx.v
@@ -588,6 +587,8 @@ ReRegRefs(s, m, rs, origset, srcpfx, dest) ==
        ELSE IF "F20" \in KF THEN ReRegRefs(s, m, Tail(rs), origset, srcpfx, dest)
        ELSE ReRegRefs(AddRefo(s, m, old, r), m, Tail(rs), origset, srcpfx, dest)
 
+RECURSIVE ClearFm(_, _)
+ClearFm(s, ids) == IF ids = <<>> THEN s ELSE ClearFm(SetF(s, Head(ids), "fm", {}), Tail(ids))
 MoveFull(s, m, msrc, p, src, pos0, v) ==
   LET sx == PathUnchecked(s, src)
       dx == PathUnchecked(s, p)
@@ -602,7 +603,8 @@ MoveFull(s, m, msrc, p, src, pos0, v) ==
            rs == SelectSeq(D, LAMBDA x : KIsRef(Kind(s, x)) /\ HasRefData(s, x))
            s1 == SetF(s, sp.v, "cont", DelAt(Cont(s, sp.v), PosOfChild(s, sp.v, src)))
            s2 == RemoveRefoAll(RemoveIdxAll(s1, msrc, [j \in 1..Len(ops) |-> ops[j][1]]), msrc, rs)
-           s3 == SetF(s2, src, "par", PE(p))
+           s2b == ClearFm(s2, D)             \* files of the source model mean nothing in the destination
+           s3 == SetF(s2b, src, "par", PE(p))
            mu == IF IsIdent(s3, src) THEN MakeUnique(s3, m, src, dx.v) ELSE [ok |-> TRUE, s |-> s3, name |-> ""] IN
   IF ~mu.ok THEN {Fail(s, "ElementNotIdentifiable")}
   ELSE LET dest == IF IsIdent(s3, src) THEN dx.v \o <<mu.name>> ELSE dx.v
@@ -661,7 +663,7 @@ AddToFile(s, e, f) ==
   ELSE IF ~ParentSplittable(s, e) THEN {Fail(s, "FilesetModificationForbidden")}
   ELSE LET md == ApiModel(s, e) IN
   IF md.t = "err" THEN {Fail(s, md.v)}
-  ELSE IF md.v # s.f[f].m THEN {Fail(s, "InvalidFile")}
+  ELSE IF md.v # s.f[f].m \/ ~(\E j \in 1..Len(s.files[md.v]) : s.files[md.v][j] = f) THEN {Fail(s, "InvalidFile")}
   ELSE LET fmr == ApiFm(s, e) IN
   IF fmr.t = "err" THEN {Fail(s, fmr.v)}
   ELSE IF f \in fmr.set THEN {Ok(s, 0)}
@@ -712,7 +714,7 @@ RemoveFile(s, m, f) ==
            s1 == [s EXCEPT !.files[m] = F2]
            rt == s.root[m] IN
        IF F2 = <<>> THEN
-            LET s2 == IF "F15" \in KF THEN s1 ELSE RemoveInternalList(s1, m, SubIds(s1, rt), <<>>)
+            LET s2 == RemoveInternalList(s1, m, SubIds(s1, rt), <<>>)
                 s3 == [s2 EXCEPT !.n[rt].cont = <<>>, !.n[rt].fm = {}, !.idx[m] = {}, !.refo[m] = {}]
             IN {Ok(s3, 0)}
        ELSE {Ok((CHOOSE o \in RemoveFromFile(s1, rt, f) : TRUE).st, 0)}
